@@ -11,3 +11,7 @@ import JominiModel.Props.C15
 #print axioms Jomini.Props.C15.C15_error_state_unreachable
 #print axioms Jomini.Props.C15.C15_ints
 #print axioms Jomini.Props.C15.C15_lexemes_partial
+#print axioms Jomini.Props.C15.C15_lexemes_flat
+#print axioms Jomini.Props.C15.C15_parse_back_flat
+#print axioms Jomini.Props.C15.C15_lexemes_nested
+#print axioms Jomini.Props.C15.C15_parse_back_nested
